@@ -138,6 +138,11 @@ impl Probe for ResolveProbe {
                         if !stores[s].keys().all(|k| stores[r].contains_key(k)) || !applied[s].is_subset(&applied[r]) {
                             continue;
                         }
+                        // ... and the resolver must have applied every block it stores: after a travel to an
+                        // earlier head set its storage still holds the later blocks, which a sync hands over too
+                        if !stores[r].keys().filter_map(|k| k.strip_suffix(".delta")).all(|b| applied[r].contains(b)) {
+                            continue;
+                        }
                         let o = w.apply(&Op::Sync(s, r));
                         cx.count("propagations");
                         let vs = w.view(s);
@@ -213,6 +218,7 @@ pub fn scenarios(thorough: bool) -> Vec<Scenario> {
     v.push(pair_conflict_scenario("pair-edit-lo-vs-delete", 16, 3, &[9], if thorough { 3 } else { 2 }, &[Op::Resolve(1, 0, 0), Op::Resolve(1, 1, 0), Op::Resolve(1, 1, 1), Op::Sync(0, 1)]));
     v.push(tie_scenario("pair-tie", if thorough { 3 } else { 2 }, &[]));
     v.push(three_leaves_scenario("trio-three-leaves", if thorough { 4 } else { 3 }, &[]));
+    v.extend(cross_scenarios(thorough));
     v
 }
 
